@@ -18,5 +18,5 @@ PROPERTY QueriesArePure
 PROPERTY FrameOK
 PROPERTY AdaptedBackgroundIsOne
 PROPERTY AdaptedSystemIsOne
-PROPERTY EpsilonFromRegistrationTime
+INVARIANT EpsilonIsDerived
 CHECK_DEADLOCK FALSE
